@@ -405,6 +405,34 @@ func (w *World) checkUnionLoop(r *Report, hash *ssa.Function) {
 			continue
 		}
 		fam := w.sameRecvFamily(top)
+		// and the closures made in them, and the plain functions they call (the two
+		// drain loops written once, as a local closure or a helper function)
+		{
+			seenF := map[*ssa.Function]bool{}
+			for _, f := range fam {
+				seenF[f] = true
+			}
+			for i := 0; i < len(fam) && len(fam) < 32; i++ {
+				eachInstr(fam[i], false, func(_ *ssa.Function, in ssa.Instruction) {
+					var cand *ssa.Function
+					switch x := in.(type) {
+					case *ssa.MakeClosure:
+						cand, _ = x.Fn.(*ssa.Function)
+						if cand != nil && cand.Parent() == nil {
+							cand = nil // a method value, not a closure of this function
+						}
+					case ssa.CallInstruction:
+						if c := x.Common().StaticCallee(); c != nil && w.inPkg(c) && c.Signature.Recv() == nil && c.Parent() == nil && c != hash {
+							cand = c
+						}
+					}
+					if cand != nil && !seenF[cand] && len(cand.Blocks) > 0 {
+						seenF[cand] = true
+						fam = append(fam, cand)
+					}
+				})
+			}
+		}
 		type site struct {
 			fn *ssa.Function
 			hc *ssa.Call
@@ -429,8 +457,28 @@ func (w *World) checkUnionLoop(r *Report, hash *ssa.Function) {
 			arg := resolveNav(w, hc.Call.Args[0])
 			cp, ok := arg.(*ssa.Call)
 			var selCall *ssa.Call
+			var selPhi *ssa.Phi
 			if ok && cp.Call.IsInvoke() && w.navMethodClass(cp.Call.Method.Name()) == "copy" {
-				selCall, _ = resolveNav(w, cp.Call.Value).(*ssa.Call)
+				src := resolveNav(w, cp.Call.Value)
+				selCall, _ = src.(*ssa.Call)
+				// `for node := q.Select(t); node != nil; node = q.Select(t)`: the same pull, twice
+				if ph, isPhi := src.(*ssa.Phi); isPhi {
+					all := len(ph.Edges) > 0
+					var first *ssa.Call
+					for _, e := range ph.Edges {
+						c, isC := resolveNav(w, e).(*ssa.Call)
+						if !isC || !c.Call.IsInvoke() || c.Call.Method.Name() != sel || (first != nil && !sameValue(first.Call.Value, c.Call.Value) && first.Call.Value != c.Call.Value) {
+							all = false
+							break
+						}
+						if first == nil {
+							first = c
+						}
+					}
+					if all {
+						selCall, selPhi = first, ph
+					}
+				}
 			}
 			if selCall == nil || !selCall.Call.IsInvoke() || selCall.Call.Method.Name() != sel {
 				r.bad("B-HASH", key, w.instrPos(hc), "the key is not computed from a copy of the node the operand just produced")
@@ -483,7 +531,7 @@ func (w *World) checkUnionLoop(r *Report, hash *ssa.Function) {
 			}
 			ins, app := false, false
 			for _, in := range notFound.Instrs {
-				if mu, ok := in.(*ssa.MapUpdate); ok && mu.Map == lk.X && mu.Key == ssa.Value(hc) {
+				if mu, ok := in.(*ssa.MapUpdate); ok && (mu.Map == lk.X || sameValue(mu.Map, lk.X)) && mu.Key == ssa.Value(hc) {
 					ins = true
 				}
 				if c, ok := in.(*ssa.Call); ok {
@@ -522,6 +570,13 @@ func (w *World) checkUnionLoop(r *Report, hash *ssa.Function) {
 			for _, u := range uses(selCall) {
 				if bo, ok := u.(*ssa.BinOp); ok && isNilConst(bo.Y) {
 					drained = true
+				}
+			}
+			if selPhi != nil {
+				for _, u := range uses(selPhi) {
+					if bo, ok := u.(*ssa.BinOp); ok && isNilConst(bo.Y) {
+						drained = true
+					}
 				}
 			}
 			if ins && app && !stray && drained {
